@@ -57,6 +57,10 @@ static void PrintSeq(const char *tag, const std::vector<Index> &v, size_t limit)
 int main() {
   std::string line;
   long seq = 0;
+  // objects that live across commands ("same object used twice"): the RangeParser of the
+  // history commands hnew/hparse/hadd/hiter, and ONE IndexParser for all idx* commands
+  std::unique_ptr<tools::RangeParser> hrp(new tools::RangeParser());
+  xtp::IndexParser ip;
   while (std::getline(std::cin, line)) {
     ++seq;
     std::istringstream in(line);
@@ -162,18 +166,64 @@ int main() {
             }
           }
         }
+      } else if (cmd == "hnew") {
+        hrp.reset(new tools::RangeParser());
+        std::cout << "ok" << std::endl;
+      } else if (cmd == "hparse") {
+        // hparse <expression>   on the persistent object
+        std::string expr;
+        std::getline(in, expr);
+        try {
+          hrp->Parse(expr);
+          std::cout << "accepted" << std::endl;
+        } catch (const std::exception &e) {
+          std::cout << "rejected " << e.what() << std::endl;
+        }
+      } else if (cmd == "hadd") {
+        // hadd <begin> <end> <stride>   RangeParser::Add on the persistent object
+        Index b, e, st;
+        in >> b >> e >> st;
+        try {
+          hrp->Add(b, e, st);
+          std::cout << "accepted" << std::endl;
+        } catch (const std::exception &ex) {
+          std::cout << "rejected " << ex.what() << std::endl;
+        }
+      } else if (cmd == "hiter") {
+        // hiter <budget>: iterate the persistent object, print it, parse the text into a FRESH object
+        long budget;
+        in >> budget;
+        std::vector<Index> out;
+        if (!Iterate(*hrp, budget, out)) {
+          PrintSeq("nonterm", out, 12);
+        } else {
+          PrintSeq("seq", out, out.size());
+        }
+        std::ostringstream os;
+        os << *hrp;
+        std::cout << "printed " << os.str() << std::endl;
+        tools::RangeParser fresh;
+        try {
+          fresh.Parse(os.str());
+          std::vector<Index> out2;
+          if (!Iterate(fresh, budget, out2)) {
+            PrintSeq("renonterm", out2, 12);
+          } else {
+            PrintSeq("reseq", out2, out2.size());
+          }
+        } catch (const std::exception &e) {
+          std::cout << "rerejected " << e.what() << std::endl;
+        }
       } else if (cmd == "idxstr") {
         // idxstr v1 v2 ...  -> CreateIndexString
         std::vector<Index> v;
         Index x;
         while (in >> x) v.push_back(x);
-        xtp::IndexParser ip;
         std::cout << "str " << ip.CreateIndexString(v) << std::endl;
       } else if (cmd == "idxvec") {
         // idxvec <index string>  -> CreateIndexVector
         std::string text;
         std::getline(in, text);
-        xtp::IndexParser ip;
         std::vector<Index> v = ip.CreateIndexVector(text);
         PrintSeq("vec", v, v.size());
       } else {
